@@ -56,42 +56,35 @@ theorem gen_frozen :
 
 /-! ## C19_validate_sound -/
 
-/-- what an accepted path must look like: no '..' component, no symlink in any component including the last
-(except the system links the code deliberately lets through), allowed extension -/
-def Confined (fs : Fs) (fuel : Nat) (ex : Exempt) (allowed : List Str) (cwd : List Str) (s : Str) : Prop :=
-  dotdot ∉ (parsePath s).tail ∧
-  noSymlinkComponent fs fuel ex (absParts cwd s) ∧
-  extAllowed allowed (pathName (parsePath s)) = true
+-- `Confined` (no '..' component ∧ `noSymlinkComponent` ∧ allowed extension) is defined in Lemmas/Validate.lean
 
-/-- **Soundness of the three validators** (all path strings, all well-formed file systems, any stage order that
-contains the three stages, any fuel).  PARTIAL for the code as it is today: `cfg = ⟨true, true⟩` needs the guard
-"no component of the path is a dangling symlink" (`noDangling`, finding F29).  For the repaired shape of the walk
-(`current.is_symlink()` tested for every component: `cfg = ⟨false, false⟩`, proposed_fixes/F29.diff) no guard is
-needed — see `C19_validate_sound_fixed`.  The model reads `cfg` from the source (Gen.walkCfg). -/
-theorem C19_validate_sound_partial (fs : Fs) (fuel : Nat) (cfg : WalkCfg) (ex : Exempt) (allowed cwd : List Str) (s : Str)
-    (order : List Stage) (hall : Stage.dotdot ∈ order ∧ Stage.symlink ∈ order ∧ Stage.ext ∈ order)
-    (hcwd : ∀ c ∈ cwd, normalName c)
-    (hguard : (cfg.useExists = false ∧ cfg.guarded = false) ∨ (fs.WF ∧ noDangling fs fuel (absParts cwd s)))
-    (h : validatePath fs fuel cfg ex allowed cwd s order = .ok ()) :
-    Confined fs fuel ex allowed cwd s := by
-  have hst := validatePath_ok_stage h
-  have hdd := dotdotStage_ok (hst _ hall.1)
-  exact ⟨hdd, symlinkStage_ok (absParts_normal hcwd hdd) hguard (hst _ hall.2.1), extStage_ok (hst _ hall.2.2)⟩
+/-- the component walk of every copy has the repaired shape: `current.is_symlink()` is tested for every component,
+unconditionally (commit 15db00f; before it the test was `current.exists() and current.is_symlink()` under
+`if absolute != resolved`, finding F29) -/
+theorem gen_walk_cfg : Gen.walkCfg = [("write", false, false), ("validate", false, false), ("fileops", false, false)] := by decide
 
-/-- full strength, for the repaired walk (no hypothesis on the file system at all) -/
-theorem C19_validate_sound_fixed (fs : Fs) (fuel : Nat) (ex : Exempt) (allowed cwd : List Str) (s : Str)
+/-- **Soundness of the three validators, full strength**: for every file system (no well-formedness needed), working
+directory, path string, fuel, exemption constants, allow-list and every stage order that contains the three stages
+(the orders of the three copies are in `gen_stages`): an accepted path has no `..` component, no symlink in any
+component including the last (except the system links `exemptOk` lets through), and an allowed extension. -/
+theorem C19_validate_sound (fs : Fs) (fuel : Nat) (ex : Exempt) (allowed cwd : List Str) (s : Str)
     (order : List Stage) (hall : Stage.dotdot ∈ order ∧ Stage.symlink ∈ order ∧ Stage.ext ∈ order)
     (hcwd : ∀ c ∈ cwd, normalName c)
     (h : validatePath fs fuel ⟨false, false⟩ ex allowed cwd s order = .ok ()) :
     Confined fs fuel ex allowed cwd s :=
-  C19_validate_sound_partial fs fuel ⟨false, false⟩ ex allowed cwd s order hall hcwd (Or.inl ⟨rfl, rfl⟩) h
+  validatePath_sound fs fuel ⟨false, false⟩ ex allowed cwd s order hall hcwd (Or.inl ⟨rfl, rfl⟩) h
 
-/-- the translator recognised the shape of the walk in each of the three copies (the flags themselves are data: the
-model follows them, so that repairing F29 in the source changes no statement here) -/
-theorem gen_walk_copies : Gen.walkCfg.map (·.1) = ["write", "validate", "fileops"] ∧
-    Gen.walkGuards.map (·.1) = ["write", "validate", "fileops"] ∧ Gen.walkTests.map (·.1) = ["write", "validate", "fileops"] := by decide
+/-- the same statement for the earlier shapes of the walk (`useExists` and/or `guarded` set), which needs the guard
+"the file system is a tree and no component of the path is a dangling symlink"; kept because the model still
+implements those shapes (the translator selects the shape from the source) -/
+theorem C19_validate_sound_old_shape_partial (fs : Fs) (fuel : Nat) (cfg : WalkCfg) (ex : Exempt) (allowed cwd : List Str) (s : Str)
+    (order : List Stage) (hall : Stage.dotdot ∈ order ∧ Stage.symlink ∈ order ∧ Stage.ext ∈ order)
+    (hcwd : ∀ c ∈ cwd, normalName c) (hwf : fs.WF) (hnd : noDangling fs fuel (absParts cwd s))
+    (h : validatePath fs fuel cfg ex allowed cwd s order = .ok ()) :
+    Confined fs fuel ex allowed cwd s :=
+  validatePath_sound fs fuel cfg ex allowed cwd s order hall hcwd (Or.inr ⟨hwf, hnd⟩) h
 
-/-! ### the negation on a witness (F29) -/
+/-! ### the earlier shape was unsound without the guard (F29, fixed in 15db00f): witness -/
 
 def fsDangling : List (List Str × Node) :=
   [(["sb".toList], .dir), (["sb".toList, "dang.md".toList], .link "/out/missing.md".toList)]
@@ -99,9 +92,9 @@ def fsDangling : List (List Str × Node) :=
 def exToday : Exempt := ⟨2, "private".toList⟩
 def allowedToday : List Str := [mdS, octMdS, octaveS]
 
-/-- **F29**: with the walk of today, `dang.md` (a dangling symlink) is accepted by both stage orders although its
-last component is a symlink, on a well-formed file system. -/
-theorem C19_validate_sound_false_today :
+/-- **F29** (regression witness): with the earlier walk, `dang.md` (a dangling symlink) is accepted by both stage orders
+although its last component is a symlink, on a well-formed file system. -/
+theorem C19_old_walk_accepts_dangling :
     validatePath (Fs.ofList fsDangling) 20 ⟨true, true⟩ exToday allowedToday ["sb".toList] "dang.md".toList orderA = .ok () ∧
     validatePath (Fs.ofList fsDangling) 20 ⟨true, true⟩ exToday allowedToday ["sb".toList] "dang.md".toList orderB = .ok () ∧
     pyIsSymlink (Fs.ofList fsDangling) 20 (absParts ["sb".toList] "dang.md".toList) = .ok true ∧
@@ -110,8 +103,8 @@ theorem C19_validate_sound_false_today :
 /-- the same witness is refused by the repaired walk -/
 example : validatePath (Fs.ofList fsDangling) 20 ⟨false, false⟩ exToday allowedToday ["sb".toList] "dang.md".toList orderA = .error .symlink := by decide
 
-/-! ### non-vacuity of `C19_validate_sound_partial`: a tree with files, a directory and live links, on which the
-hypotheses hold for the walk of today and a path is accepted -/
+/-! ### non-vacuity: a tree with files, a directory and live links on which paths are accepted (both shapes of the
+walk), and on which the guard of the old-shape theorem holds -/
 
 def fsLive : List (List Str × Node) :=
   [(["sb".toList], .dir), (["sb".toList, "d".toList], .dir), (["sb".toList, "d".toList, "f.md".toList], .file []),
@@ -119,6 +112,11 @@ def fsLive : List (List Str × Node) :=
 
 example : (Fs.ofList fsLive).WF := ofList_wf (by decide)
 example : noDangling (Fs.ofList fsLive) 20 (absParts ["sb".toList] "d/f.md".toList) := noDangling_of_B (by decide)
+example : validatePath (Fs.ofList fsLive) 20 ⟨false, false⟩ exToday allowedToday ["sb".toList] "d/f.md".toList orderA = .ok () := by decide
+example : validatePath (Fs.ofList fsLive) 20 ⟨false, false⟩ exToday allowedToday ["sb".toList] "d/n.oct.md".toList orderB = .ok () := by decide
+example : validatePath (Fs.ofList fsLive) 20 ⟨false, false⟩ exToday allowedToday ["sb".toList] "lin/f.md".toList orderB = .error .symlink := by decide
+example : validatePath (Fs.ofList fsLive) 20 ⟨false, false⟩ exToday allowedToday ["sb".toList] "d/../d/f.md".toList orderA = .error .dotdot := by decide
+example : validatePath (Fs.ofList fsLive) 20 ⟨false, false⟩ exToday allowedToday ["sb".toList] "d/f.txt".toList orderA = .error .ext := by decide
 example : validatePath (Fs.ofList fsLive) 20 ⟨true, true⟩ exToday allowedToday ["sb".toList] "d/f.md".toList orderA = .ok () := by decide
 example : validatePath (Fs.ofList fsLive) 20 ⟨true, true⟩ exToday allowedToday ["sb".toList] "d/n.oct.md".toList orderB = .ok () := by decide
 /-- and a live link in the middle of the path is refused -/
@@ -192,7 +190,8 @@ theorem C19_symlink_recheck_order :
     ∀ p ∈ Gen.programs, p.1 = "WriteTool.execute" ∨ p.1 = "atomic_write_octave" →
       ("recheck-return", "", "") ∈ p.2 ∧ runLinkSeen p.2 = [] := by decide
 
-/-- **C19_symlink_recheck** (decision), PARTIAL today: the re-check `exists() and is_symlink()` sees a final-component
+/-- **C19_symlink_recheck** (decision), PARTIAL (both re-checks still read `exists() and is_symlink()`,
+`gen_recheck_sites`; they matter only for a link created after validation, which is outside the model): the re-check `exists() and is_symlink()` sees a final-component
 symlink only if it is not dangling; with `useExists = false` (the repaired shape) it sees every one. -/
 theorem C19_symlink_recheck_partial (fs : Fs) (fuel : Nat) (useExists : Bool) (cwd : List Str) (s : Str)
     (hlink : pyIsSymlink fs fuel (absParts cwd s) = .ok true)
@@ -210,8 +209,8 @@ theorem C19_symlink_recheck_partial (fs : Fs) (fuel : Nat) (useExists : Bool) (c
 
 theorem gen_recheck_sites : Gen.recheckUsesExists.map (·.1) = ["WriteTool.execute", "atomic_write_octave"] := by decide
 
-/-- the negation on the witness: today's re-check does not see the dangling link -/
-theorem C19_symlink_recheck_false_today :
+/-- the negation on the witness: a re-check of the `exists() and` shape does not see a dangling link -/
+theorem C19_symlink_recheck_misses_dangling :
     recheckRefuses (Fs.ofList fsDangling) 20 true ["sb".toList] "dang.md".toList = .ok false ∧
     pyIsSymlink (Fs.ofList fsDangling) 20 (absParts ["sb".toList] "dang.md".toList) = .ok true := by decide
 
@@ -399,11 +398,52 @@ theorem C19_source_uri_lexical (fs : Fs) (fuel : Nat) (fix : Bool) (base : List 
           · rename_i hp; simp at h; subst h; exact List.isPrefixOf_iff_prefix.mp hp
           · simp at h
 
-/-- **… but "resolved" is PARTIAL today (F60)**: the returned path is free of symlinks in every component — so that
-being below the base as a list of components means being inside the base directory — only when resolving `base / u`
-does not run into a symlink cycle (`uriMeetsLoop`); `Path.resolve(strict=False)` otherwise returns a partially
-resolved path. -/
-theorem C19_source_uri_partial (fs : Fs) (fuel : Nat) (fix : Bool) (base : List Str) (u : Str) (r : List Str)
+/-- validate_source_uri re-resolves its result and demands a fixed point (commit 7419f17, finding F60) -/
+theorem gen_source_uri_fixpoint : Gen.sourceUriFixpoint = true := by decide
+
+/-- **A source URI never resolves outside its base, full strength** (for the function with the fixed-point test): the
+returned path `r` lies below the resolved base as a list of components, and whatever object the operating system
+reaches through `r` (following every link: `kstat`) is `r` itself — no component of `r` redirects anywhere. -/
+theorem C19_source_uri (fs : Fs) (fuel : Nat) (base : List Str) (u : Str) (r : List Str)
+    (h : validateSourceUri fs fuel true base u = .ok r) :
+    ∃ b, resolveU fs fuel base = .ok b ∧ b <+: r ∧ ∀ c, kstat fs fuel r = .ok c → c = r := by
+  obtain ⟨b, hb, hpre⟩ := C19_source_uri_lexical fs fuel true base u r h
+  refine ⟨b, hb, hpre, ?_⟩
+  unfold validateSourceUri at h
+  simp only [hb] at h
+  split at h
+  · simp at h
+  · split at h
+    · simp at h
+    · rename_i r0 hr0
+      simp only [if_true] at h
+      split at h
+      · simp at h
+      · rename_i r' hr'
+        split at h
+        · simp at h
+        · rename_i hfix
+          have hfix' : r' = r0 := by simpa using hfix
+          subst hfix'
+          have hr : r = r' := by split at h <;> simp at h; exact h.symm
+          subst hr
+          -- resolveU r = ok r
+          intro c hc
+          unfold kstat at hc
+          have hrp := kWalk_ok_rpWalk fs fuel [] r [] c hc
+          unfold resolveU at hr'
+          rcases hrp with hrp | hrp
+          · rw [hrp] at hr'
+            simp only [] at hr'
+            split at hr'
+            · simp at hr'
+            · split at hr' <;> simp at hr' <;> exact hr'
+          · rw [hrp] at hr'; simp at hr'
+
+/-- **the version without the fixed-point test is PARTIAL (F60)**: the returned path is free of symlinks in every
+component only when resolving `base / u` does not run into a symlink cycle (`uriMeetsLoop`); `Path.resolve(strict=False)`
+otherwise returns a partially resolved path.  Holds for both shapes of the function. -/
+theorem C19_source_uri_old_shape_partial (fs : Fs) (fuel : Nat) (fix : Bool) (base : List Str) (u : Str) (r : List Str)
     (hloop : uriMeetsLoop fs fuel base u = false)
     (h : validateSourceUri fs fuel fix base u = .ok r) :
     ∃ b, resolveU fs fuel base = .ok b ∧ b <+: r ∧ physLinkFree fs r := by
@@ -446,21 +486,23 @@ def fsLoop : List (List Str × Node) :=
   [(["b".toList], .dir), (["b".toList, "loop".toList], .link "loop".toList),
    (["b".toList, "lf.md".toList], .link "/out/secret.md".toList), (["out".toList], .dir), (["out".toList, "secret.md".toList], .file [])]
 
-/-- **F60, the negation on a witness**: `loop/../lf.md` is accepted and the path returned, `b/lf.md`, is a symlink to
-`/out/secret.md` outside the base `b`. -/
-theorem C19_source_uri_false_today :
+/-- **F60** (regression witness): without the fixed-point test `loop/../lf.md` is accepted and the path returned,
+`b/lf.md`, is a symlink to `/out/secret.md` outside the base `b`. -/
+theorem C19_source_uri_unfixed_escapes :
     validateSourceUri (Fs.ofList fsLoop) 20 false ["b".toList] "loop/../lf.md".toList = .ok ["b".toList, "lf.md".toList] ∧
     pyIsSymlink (Fs.ofList fsLoop) 20 ["b".toList, "lf.md".toList] = .ok true ∧
     pyResolve (Fs.ofList fsLoop) 20 ["b".toList, "lf.md".toList] = .ok ["out".toList, "secret.md".toList] ∧
     uriMeetsLoop (Fs.ofList fsLoop) 20 ["b".toList] "loop/../lf.md".toList = true ∧ wfCheck fsLoop = true := by decide
 
-/-- with the fixed-point test of proposed_fixes/F60.diff the witness is refused -/
+/-- with the fixed-point test the witness is refused -/
 example : validateSourceUri (Fs.ofList fsLoop) 20 true ["b".toList] "loop/../lf.md".toList = .error .resolveFailed := by decide
-/-- non-vacuity of the partial theorem: an ordinary URI with `..` that stays inside is accepted, one that leaves is refused -/
+/-- non-vacuity: an ordinary URI with `..` that stays inside is accepted (both shapes), one that leaves is refused -/
+example : validateSourceUri (Fs.ofList fsLive) 20 true ["sb".toList] "d/../d/f.md".toList = .ok ["sb".toList, "d".toList, "f.md".toList] := by decide
 example : validateSourceUri (Fs.ofList fsLive) 20 false ["sb".toList] "d/../d/f.md".toList = .ok ["sb".toList, "d".toList, "f.md".toList] ∧
     uriMeetsLoop (Fs.ofList fsLive) 20 ["sb".toList] "d/../d/f.md".toList = false := by decide
-example : validateSourceUri (Fs.ofList fsLive) 20 false ["sb".toList] "../out/secret.md".toList = .error .outside := by decide
-example : validateSourceUri (Fs.ofList fsLive) 20 false ["sb".toList] "/out/secret.md".toList = .error .absolute := by decide
+example : validateSourceUri (Fs.ofList fsLive) 20 true ["sb".toList] "../out/secret.md".toList = .error .outside := by decide
+example : validateSourceUri (Fs.ofList fsLive) 20 true ["sb".toList] "lin/../../out/secret.md".toList = .error .outside := by decide
+example : validateSourceUri (Fs.ofList fsLive) 20 true ["sb".toList] "/out/secret.md".toList = .error .absolute := by decide
 /-- the statements of validate_source_uri, in order (the optional fixed-point test of proposed_fixes/F60.diff is
 recognised separately as `Gen.sourceUriFixpoint`) -/
 theorem gen_source_uri_shape : Gen.sourceUriShape.length = 6 ∧
